@@ -25,6 +25,14 @@ func evalC17(c C17Case) *h.Finding {
 	desc := fmt.Sprintf("callback=%s code=%d enh=%s msg=%q", c.Callback, c.Code, c.Enh, c.Msg)
 	var berr error
 	class := c.Code / 100
+	if strings.Contains(c.Msg, "{E}") {
+		// a text line that begins with the very enhanced code the reply carries
+		own := map[string]string{"set": fmt.Sprintf("%d.7.1", class), "notset": fmt.Sprintf("%d.0.0", class), "none": "5.7.1", "plain": "4.0.0"}[c.Enh]
+		if c.Enh == "plain" && c.Callback == "Data" {
+			own = "5.0.0"
+		}
+		c.Msg = strings.ReplaceAll(c.Msg, "{E}", own)
+	}
 	wantCode, wantEnh, wantMsg := c.Code, smtp.EnhancedCode{}, c.Msg
 	switch c.Enh {
 	case "set":
@@ -169,14 +177,122 @@ func looksLikeEnh(lines []string) bool {
 	return false
 }
 
-func init() { h.RegisterReplayer("c17", evalC17) }
+// ---- the Data verdict of each of several transactions on one connection, via DATA and via BDAT ----
+
+type C17SeqCase struct {
+	Via   [2]string `json:"via"`   // data | bdat1 (one LAST chunk) | bdat2 (two chunks)
+	Err   [2]int    `json:"err"`   // index into c17SeqErrs
+	Early bool      `json:"early"` // the first backend call returns its error without reading the message
+}
+
+var c17SeqErrs = []error{
+	nil,
+	&smtp.SMTPError{Code: 550, EnhancedCode: smtp.EnhancedCode{5, 7, 1}, Message: "first shape"},
+	&smtp.SMTPError{Code: 452, Message: "two\nlines"},
+	&smtp.SMTPError{Code: 554, EnhancedCode: smtp.NoEnhancedCode, Message: "no enhanced code"},
+	errors.New("some other error"),
+}
+
+type c17Want struct {
+	exact bool
+	code  int
+	enh   string
+	text  string
+	sub   bool // text is a substring requirement
+	class int  // only the reply class is fixed
+}
+
+func c17WantFor(err error) c17Want {
+	switch e := err.(type) {
+	case nil:
+		return c17Want{code: 250}
+	case *smtp.SMTPError:
+		w := c17Want{exact: true, code: e.Code, text: e.Message}
+		switch e.EnhancedCode {
+		case smtp.NoEnhancedCode:
+		case smtp.EnhancedCodeNotSet:
+			w.enh = fmt.Sprintf("%d.0.0", e.Code/100)
+		default:
+			w.enh = fmt.Sprintf("%d.%d.%d", e.EnhancedCode[0], e.EnhancedCode[1], e.EnhancedCode[2])
+		}
+		return w
+	default:
+		return c17Want{exact: true, code: 554, enh: "5.0.0", text: err.Error(), sub: true}
+	}
+}
+
+func evalC17Seq(c C17SeqCase) *h.Finding {
+	desc := fmt.Sprintf("two transactions on one connection: first via %s (backend returns %v%s), second via %s (backend returns %v)", c.Via[0], c17SeqErrs[c.Err[0]], map[bool]string{true: " without reading the message", false: ""}[c.Early], c.Via[1], c17SeqErrs[c.Err[1]])
+	be := &h.Backend{}
+	be.Plan = func(idx int) h.DataPlan {
+		if idx > 1 {
+			return h.ReadAll
+		}
+		p := h.DataPlan{Max: -1, Verdict: c17SeqErrs[c.Err[idx]]}
+		if idx == 0 && c.Early {
+			p.Max = 0
+		}
+		return p
+	}
+	var in strings.Builder
+	in.WriteString("EHLO c.example\r\n")
+	var want []c17Want
+	want = append(want, c17Want{code: 220}, c17Want{code: 250})
+	for t := 0; t < 2; t++ {
+		fmt.Fprintf(&in, "MAIL FROM:<ok@a%d.example>\r\nRCPT TO:<ok@b%d.example>\r\n", t, t)
+		want = append(want, c17Want{code: 250}, c17Want{code: 250})
+		final := c17WantFor(c17SeqErrs[c.Err[t]])
+		switch c.Via[t] {
+		case "data":
+			in.WriteString("DATA\r\nline one\r\nline two\r\n.\r\n")
+			want = append(want, c17Want{code: 354}, final)
+		case "bdat1":
+			in.WriteString("BDAT 10 LAST\r\nline one\r\n")
+			want = append(want, final)
+		case "bdat2":
+			in.WriteString("BDAT 10\r\nline one\r\nBDAT 10 LAST\r\nline two\r\n")
+			if t == 0 && c.Early {
+				// the failure is reported on the first chunk; the transaction is gone, the second chunk is refused
+				want = append(want, final, c17Want{class: 5})
+			} else {
+				want = append(want, c17Want{code: 250}, final)
+			}
+		}
+	}
+	in.WriteString("NOOP\r\n")
+	want = append(want, c17Want{code: 250})
+	o := h.RunS(h.Config{}, be, h.OneSeg([]byte(in.String())), h.TermEOF)
+	if f := o.Sanity("c17", desc); f != nil {
+		return f
+	}
+	if o.ParseErr != nil || len(o.Replies) != len(want) {
+		return h.F("c17-seq-replies", "%s: replies %s (%v), want %d replies", desc, o.Codes(), o.ParseErr, len(want))
+	}
+	for i, w := range want {
+		r := o.Replies[i]
+		ok := r.Code == w.code || w.class != 0 && r.Class() == w.class
+		if ok && w.exact {
+			text := strings.Join(r.Text, "\n")
+			ok = r.Enh == w.enh && (text == w.text || w.sub && strings.Contains(text, w.text))
+		}
+		if !ok {
+			return h.F("c17-seq-differs", "%s: reply %d is %s, want %d %q %q (all replies: %s)", desc, i, r.String(), w.code, w.enh, w.text, o.Codes())
+		}
+	}
+	return nil
+}
+
+func init() {
+	h.RegisterReplayer("c17", evalC17)
+	h.RegisterReplayer("c17-seq", evalC17Seq)
+}
 
 func C17(tier string) int {
 	run := h.NewRun("C17", tier, "exploration", "", 20*time.Minute)
 	codes := []int{421, 450, 451, 452, 500, 501, 550, 552, 554}
-	msgs := []string{"", "plain text", " leading space", "trailing space ", "5.1.1 looks like a code", "2.0.0", "non-ASCII: pelé €", "line one\nline two", "one\ntwo\nthree", "first\n\nthird", "a\n5.7.1 b", "tab\there", "   "}
+	msgs := []string{"", "plain text", " leading space", "trailing space ", "5.1.1 looks like a code", "2.0.0", "non-ASCII: pelé €", "line one\nline two", "one\ntwo\nthree", "first\n\nthird", "a\n5.7.1 b", "tab\there", "   ", "100% full", "%d%s%v%!x(MISSING)", "{E} starts with the reply's own enhanced code", "{E}", "a\n{E} b\n{E}"}
 	// all messages of 1..3 lines over a small set of line shapes (the hand-picked ones above stay)
-	lineShapes := []string{"", "x", " x", "x ", "5.1.1 y", "  ", "t\ty"}
+	lineShapes := []string{"", "x", " x", "x ", "5.1.1 y", "  ", "t\ty", "100% y%d%s", "{E} y"}
 	seenMsg := map[string]bool{}
 	for _, m := range msgs {
 		seenMsg[m] = true
@@ -198,7 +314,7 @@ func C17(tier string) int {
 		}
 	}
 	recLines(nil)
-	run.Rule = fmt.Sprintf("reply codes %v x enhanced code {set (class.7.1), EnhancedCodeNotSet, NoEnhancedCode} x %d message shapes (hand-picked: empty, leading/trailing space, text that looks like an enhanced code, non-ASCII, 1-3 lines, empty middle line, blank; plus ALL messages of 1-3 lines over the line shapes {empty, 'x', ' x', 'x ', '5.1.1 y', blanks, tab}) x callback {NewSession, Mail, Rcpt, Data}, plus non-SMTPError errors per callback x message shapes; each a real-client <-> real-server conversation. Distinct by construction; non-trivial = all. Oracle: wire reply (strict parser) and the client's returned *SMTPError both equal the backend's error (X.0.0 for an unset code, zero value for NoEnhancedCode); other errors => 451 (envelope) / 554 (data) with their text.", codes, len(msgs))
+	run.Rule = fmt.Sprintf("reply codes %v x enhanced code {set (class.7.1), EnhancedCodeNotSet, NoEnhancedCode} x %d message shapes (hand-picked: empty, leading/trailing space, text that looks like an enhanced code, non-ASCII, 1-3 lines, empty middle line, blank; plus ALL messages of 1-3 lines over the line shapes {empty, 'x', ' x', 'x ', '5.1.1 y', blanks, tab, printf verbs, a line starting with the reply's own enhanced code}) x callback {NewSession, Mail, Rcpt, Data}, plus non-SMTPError errors per callback x message shapes; each a real-client <-> real-server conversation; plus the Data verdicts of TWO consecutive transactions on one connection, each via {DATA, BDAT LAST, two BDAT chunks} x 5 verdict shapes each x {first backend call reads the message, returns its error without reading} (scripted peer: the go-smtp client has no BDAT). Distinct by construction; non-trivial = all. Oracle: wire reply (strict parser) and the client's returned *SMTPError both equal the backend's error (X.0.0 for an unset code, zero value for NoEnhancedCode); other errors => 451 (envelope) / 554 (data) with their text.", codes, len(msgs))
 	run.Assumptions = []string{"NoEnhancedCode combined with text that itself parses as an enhanced code is inherently ambiguous on the wire: only the reply code is judged there", "a generic Data error may be prefixed ('Error: transaction failed: ')"}
 	var cases []C17Case
 	for _, cb := range []string{"NewSession", "Mail", "Rcpt", "Data"} {
@@ -227,6 +343,31 @@ func C17(tier string) int {
 		}
 		if i%211 == 3 {
 			run.Sample("case", 6, c)
+		}
+	})
+	// the Data verdicts of two consecutive transactions, via DATA and BDAT
+	var scases []C17SeqCase
+	for _, v0 := range []string{"data", "bdat1", "bdat2"} {
+		for _, v1 := range []string{"data", "bdat1", "bdat2"} {
+			for e0 := range c17SeqErrs {
+				for e1 := range c17SeqErrs {
+					scases = append(scases, C17SeqCase{Via: [2]string{v0, v1}, Err: [2]int{e0, e1}})
+					if e0 != 0 {
+						scases = append(scases, C17SeqCase{Via: [2]string{v0, v1}, Err: [2]int{e0, e1}, Early: true})
+					}
+				}
+			}
+		}
+	}
+	h.ParallelFor(len(scases), func(i int) {
+		c := scases[i]
+		f := evalC17Seq(c)
+		run.Eval(true)
+		if f != nil {
+			run.Violate("c17-seq", c, f, func() *h.Finding { return evalC17Seq(c) })
+			run.Outcome("violation:" + f.Sig)
+		} else {
+			run.Outcome("seq:" + c.Via[0] + "," + c.Via[1])
 		}
 	})
 	return run.Finish()
